@@ -26,7 +26,7 @@ ASSEMBLE_LOCK = threading.Lock()
 REPO = os.environ.get("VERIF_REPO", "/repo")
 VERUS = shutil.which("verus") or "/usr/local/bin/verus"
 
-PROOF_FAIL = re.compile(r"(postcondition|precondition|invariant|decreases) not satisfied|assertion failed|possible arithmetic|possible division|possible bit shift|"
+PROOF_FAIL = re.compile(r"(postcondition|precondition|invariant|decreases) not satisfied|unable to prove post-condition of closure|assertion failed|possible arithmetic|possible division|possible bit shift|"
                         r"could not prove termination|decreases not satisfied|unreachable|"
                         r"failed precondition|cannot show|might not be|recommendation not met: value may be out of range")
 RLIMIT = re.compile(r"[Rr]esource limit|rlimit")
@@ -250,6 +250,32 @@ def _run_verus_unit(prop, u, workdir, variant, extra):
     res["smt_ms"] = js.get("times-ms", {}).get("smt", {}).get("total", 0)
     errs = parse_verus_errors(p.stderr, info["linemap"], rs)
     res["errors"] = errs
+    # `//@ expect_fail NAME` guards: these proof fns restate a theorem's hypotheses with `ensures false`; Verus reports
+    # them as errors (they MUST fail); they are removed from the error list and counted as guards
+    ef = set(info.get("expect_fail", []))
+    if ef:
+        failed_fns = {f["function"].split("::")[-1] for f in res["functions"] if f.get("success") is False}
+        res["expect_fail"] = {n: (n in failed_fns) for n in ef}
+        ef_lines = set()
+        for n in ef:
+            m = re.search(r"^.*\bproof fn %s\b" % re.escape(n), text, re.M)
+            if m:
+                start = text[:m.start()].count("\n") + 1
+                ef_lines.update(range(start, start + 40))
+        kept = [e for e in errs if not (e["line"] in ef_lines and "postcondition" in e["msg"])]
+        dropped = len(errs) - len(kept)
+        errs = kept
+        res["errors"] = errs
+        res["failed"] = max(0, res["failed"] - dropped)
+        if all(res["expect_fail"].values()) and not errs and vr.get("errors", 0) == dropped:
+            res["status"] = "verified"
+            res["wall_s"] = time.time() - t0
+            return res
+        if not all(res["expect_fail"].values()):
+            res["status"] = "tool-error"
+            res["detail"] = "vacuity guard (expect_fail) verified: contradictory hypotheses? %s" % res["expect_fail"]
+            res["wall_s"] = time.time() - t0
+            return res
     if vr.get("success") and not errs:
         res["status"] = "verified"
     elif vr.get("encountered-vir-error") or any(e["msg"].startswith("rustc [E") or (not PROOF_FAIL.search(e["msg"]) and not RLIMIT.search(e["msg"])) for e in errs) or not errs:
@@ -366,6 +392,9 @@ def report(prop, tier, seed, cfg, results, kres, known, t0):
                 trusted.append("%s: %s" % (unit, s))
             obligations += r["verified"] + r["failed"]
             discharged += r["verified"]
+            for n, ok in (r.get("expect_fail") or {}).items():
+                guards["reach_expected_fail"] += 1
+                guards["reach_failed_as_required"] += 1 if ok else 0
             for f in r["functions"]:
                 per_fn.append(dict(f, unit=unit, backend="verus/z3"))
             if r["status"] == "proof-failed":
